@@ -88,12 +88,11 @@ Matches(d, f) ==
     ELSE IF d.k # f.k THEN FALSE
     ELSE IF d.k = "arr" THEN Len(d.v) = Len(f.v) /\ \A i \in 1..Len(d.v) : Matches(d.v[i], f.v[i])
     ELSE IF d.k = "dict" THEN DOMAIN d.v = DOMAIN f.v /\ \A key \in DOMAIN d.v : Matches(d.v[key], f.v[key])
-    \* stream dictionaries: Length describes the encoding of the body; a document may hold it as the
-    \* integer it resolves to where the file holds a reference to an integer object (and vice versa)
+    \* stream dictionaries like any other dictionary - "same nesting and references": a Length the file holds as a
+    \* reference to an integer object is that reference in the document too (until the third round this clause was
+    \* lenient: the document could hold the integer the reference resolves to; lopdf did that, /repo fix "indirect Length")
     ELSE IF d.k = "stream" THEN /\ DOMAIN d.v = DOMAIN f.v
-                                /\ \A key \in DOMAIN d.v :
-                                      \/ Matches(d.v[key], f.v[key])
-                                      \/ (key = NameLength /\ d.v[key] = NatObj(Len(d.w)) /\ f.v[key].k \in {"ref", "int"})
+                                /\ \A key \in DOMAIN d.v : Matches(d.v[key], f.v[key])
                                 /\ d.w = f.w
     ELSE d = f
 
@@ -134,9 +133,7 @@ DiffKinds(d, f) ==
     ELSE IF d.k = "stream" /\ f.k = "stream" /\ DOMAIN d.v = DOMAIN f.v THEN
          UNION {DiffKinds(d.v[key], f.v[key]) : key \in DOMAIN d.v \ {NameLength}}
          \cup (IF d.w = f.w THEN {} ELSE {"stream-body"})
-         \cup (IF ~Has(d.v, NameLength) \/ Matches(d.v[NameLength], f.v[NameLength])
-                  \/ (d.v[NameLength] = NatObj(Len(d.w)) /\ f.v[NameLength].k \in {"ref", "int"})
-               THEN {} ELSE {"stream-length"})
+         \cup (IF ~Has(d.v, NameLength) \/ Matches(d.v[NameLength], f.v[NameLength]) THEN {} ELSE {"stream-length"})
     ELSE IF d.k = "name" /\ f.k = "name" THEN {"name"}
     ELSE IF d.k \in {"int", "real"} /\ f.k \in {"int", "real"} THEN {"number"}
     ELSE {"kind-or-structure"}
